@@ -259,6 +259,23 @@ def check_read_conf(ctx, rng):
                         return st[1]
                     return real_exists(p_)
                 os.path.exists = fake_exists
+            if ci % 9 == 4 and layout:
+                # an earlier attempt of this process to read the configuration FAILED (the file was malformed: a line that is no
+                # setting, a duplicated key); the file has been repaired since - what the refused version said is no input
+                good_text = files[layout[0]][1]
+                real_path = dotfile if os.path.islink(cands[layout[0]]) else cands[layout[0]]
+                for bad in ('transport=tcp://refused-version:1\npib=pib-sqlite3:/refused/version\ntpm=tpm-file:/refused/version\nthis line is no setting\n',
+                            'tpm=tpm-file:/refused/twice\ntransport=udp://refused-twice:2\ntpm=tpm-file:/refused/twice\npib=pib-sqlite3:/refused/twice\n'):
+                    with open(real_path, 'w') as f:
+                        f.write(bad)
+                    try:
+                        client_conf.read_client_conf()
+                    except Exception:   # noqa
+                        pass
+                with open(real_path, 'w') as f:
+                    f.write(good_text)
+                os.utime(cands[layout[0]], (1_600_000_000, 1_600_000_000))
+                ctx.event('read-after-a-refused-version-of-the-file')
             exp, conf_path = ref_resolve(env, files, defaults, default_locs, real_exists)
             w = {'env': env, 'existing_files': [os.path.relpath(c, root) for i, c in enumerate(cands) if i in layout], 'file_keys': fkeys,
                  'location': loc_kind, 'style': style, 'file_text': files[layout[0]][1] if layout else None}
@@ -367,6 +384,68 @@ def check_faces(ctx, rng):
                 ctx.report('face-address-wrong', f'{uri!r} -> {face.host!r}:{face.port!r}, expected {host}:{port}', w)
 
 
+def check_connections(ctx, rng):
+    """The address a face was built for is the address it connects to: several unix faces of one process are opened at the same time
+    (two application tasks), some of them for a socket that does not exist yet and appears a little later.  Every listening socket
+    records who connected; a face whose own socket is not there may fail or wait - it may not end up on another face's socket."""
+    import asyncio
+    import tempfile
+    import shutil
+    root = tempfile.mkdtemp(prefix='nvf-c20-sock-')
+    try:
+        for rep in range(ctx.n(3, 40)):
+            res = {'conns': {}, 'errors': {}}
+
+            async def main():
+                servers = []
+                paths = {k: os.path.join(root, f'{k}{rep}.sock') for k in ('late', 'there', 'never')}
+
+                def serve(key):
+                    async def on_conn(r, w_):
+                        res['conns'][key] = res['conns'].get(key, 0) + 1
+                        await asyncio.sleep(0.5)
+                        w_.close()
+                    return on_conn
+                servers.append(await asyncio.start_unix_server(serve('there'), paths['there']))
+                faces = {k: client_conf.default_face('unix://' + p_) for k, p_ in paths.items()}
+
+                async def opener(key, delay):
+                    await asyncio.sleep(delay)
+                    try:
+                        await asyncio.wait_for(faces[key].open(), 3)
+                        res['errors'][key] = None
+                    except BaseException as e:   # noqa
+                        res['errors'][key] = e
+                order = [('late', 0.0), ('never', 0.01), ('there', 0.03)] if rep % 2 == 0 else [('never', 0.0), ('late', 0.01), ('there', 0.02)]
+                tasks = [asyncio.ensure_future(opener(k, d)) for k, d in order]
+                await asyncio.sleep(0.15)
+                servers.append(await asyncio.start_unix_server(serve('late'), paths['late']))      # the late socket appears now
+                await asyncio.gather(*tasks)
+                await asyncio.sleep(0.05)
+                for f in faces.values():
+                    try:
+                        f.shutdown()
+                    except Exception:   # noqa
+                        pass
+                for sv in servers:
+                    sv.close()
+                await asyncio.sleep(0)
+            asyncio.run(main())
+            ctx.case(('connections', rep % 2), nontrivial=True)
+            ctx.event('unix-faces-opened-at-the-same-time')
+            w = {'connections_per_socket': res['conns'], 'open_results': {k: (None if v is None else type(v).__name__) for k, v in res['errors'].items()}}
+            opened = {k for k, v in res['errors'].items() if v is None}
+            for key in ('there', 'late', 'never'):
+                want = 1 if key in opened else 0
+                if res['conns'].get(key, 0) > want:
+                    ctx.report('face-connected-to-another-address', f'the socket of face "{key}" received {res["conns"].get(key, 0)} connections although only {want} face(s) built for that '
+                               'path opened successfully: another face of the process ended up on it', w)
+            if 'there' not in opened:
+                ctx.report('supported-uri-refused:open', f'opening a unix face whose socket exists failed: {res["errors"].get("there")!r}', w)
+    finally:
+        shutil.rmtree(root, ignore_errors=True)
+
+
 def check_keychain(ctx, rng):
     root = tempfile.mkdtemp(prefix='nvf-kc-')
     try:
@@ -416,8 +495,12 @@ def run(ctx):
     rng = ctx.rng
     check_read_conf(ctx, rng)
     check_faces(ctx, rng)
+    if ctx.shard == 0:
+        check_connections(ctx, rng)
+    else:
+        ctx.event('unix-faces-opened-at-the-same-time', 0)
     check_keychain(ctx, rng)
-    for k in ('look-alike-environment-variables', 'configuration-file-longer-than-4KiB', 'environment-override-present-but-empty', 'candidate-file-is-a-symlink', 'home-0', 'home-1', 'home-2', 'configuration', 'audit-open-checked', 'face-uri-supported', 'face-uri-unsupported', 'keychain', 'store-scheme-refused'):
+    for k in ('read-after-a-refused-version-of-the-file', 'unix-faces-opened-at-the-same-time', 'look-alike-environment-variables', 'configuration-file-longer-than-4KiB', 'environment-override-present-but-empty', 'candidate-file-is-a-symlink', 'home-0', 'home-1', 'home-2', 'configuration', 'audit-open-checked', 'face-uri-supported', 'face-uri-unsupported', 'keychain', 'store-scheme-refused'):
         ctx.need_event(k)
     if sys.platform.startswith('linux'):
         ctx.need_event('forwarder-sockets-present-01')
